@@ -103,6 +103,8 @@ static std::string run(const Toks& t) {
   if (o == "isunique") { auto a = vecs(t, 1); return B(VectorTools::isUnique(a[0])); }
   if (o == "contains") { auto a = vecs(t, 1); return B(VectorTools::contains(a.at(1), a.at(0).at(0))); }
   if (o == "which") { auto a = vecs(t, 1); return std::to_string(VectorTools::which(a.at(1), a.at(0).at(0))); }
+  if (o == "whichall") { auto a = vecs(t, 1); return NV(VectorTools::whichAll(a.at(1), a.at(0).at(0))); }
+  if (o == "appendall") { auto a = vecs(t, 1); if (t.size() == 1) a.clear(); return FV(VectorTools::append(a)); }
   if (o == "union") { auto a = vecs(t, 1); return FV(VectorTools::vectorUnion(a.at(0), a.at(1))); }
   if (o == "inter") { auto a = vecs(t, 1); return FV(VectorTools::vectorIntersection(a.at(0), a.at(1))); }
   if (o == "diff") { auto a = vecs(t, 1); V x = a.at(0), y = a.at(1), z; VectorTools::diff(x, y, z); return FV(z); }
